@@ -315,6 +315,10 @@ def run_impl(case, keep_root=False, inject=None):
             name = env.get("COND_NAME")
             t = int(name[1:])
             if t in case.launch_fail:
+                if inject is not None and inject.get("at_failed_launch") and inj_state["fired"] is None:
+                    # the signal arrives while THIS launch is failing (the block is left by the launch error)
+                    inj_state["fired"] = {"live": [pid_task[p] for p in inflight], "where": "inside-a-failing-launch", "line": 0, "func": "Popen"}
+                    _signal.raise_signal(inject.get("sig", _signal.SIGINT))
                 raise OSError(13, "injected launch failure")
             self.pid = next_pid[0]
             next_pid[0] += 1
